@@ -212,3 +212,8 @@ m('einsum_transposer_raises_for_every_string', ['C14'], '_base/dense.py',
   'lefts = lefts.translate(str.maketrans(sum_axis + transpose_axis, transpose_axis + sum_axis))',
   'lefts = lefts.translate(str.maketrans(sum_axis - transpose_axis, transpose_axis + sum_axis))',
   note='found by the systematic mutants: with "any exception is a rejection" every string became "rejected" and only the twins noticed (exit 2)')
+m('indexed_axes_ellipsis_slice_start', ['C12'], '_base/indices.py',
+  'enumerate(self.indices[ellipsis_index + 1 :], ellipsis_index + 1)', 'enumerate(self.indices[ellipsis_index + 0 :], ellipsis_index + 1)',
+  note='systematic mutant: P.T @ P with (..., array) is no longer simplified (map unchanged)')
+m('reshape_negative_sizes_accepted', ['C13'], '_base/axes.py',
+  'if any(_ < -1 for _ in shape):', 'if any(_ < -2 for _ in shape):', note='systematic mutant: (-2, -3) accepted for 6 elements')
